@@ -48,6 +48,8 @@ type Layout struct {
 	Parens    bool // redundant parentheses around operands (never around calls/varargs in multi-value positions)
 	CRLF      int  // 0 LF, 1 CRLF, 2 CR, 3 mixed
 	NoComment bool
+	// HostileComments also emits short comments that look like the start of a long bracket (`--[= x`, `--[ [`)
+	HostileComments bool
 }
 
 type printer struct {
@@ -695,8 +697,10 @@ func (p *printer) wildSep(prev, t tok, noNL bool, nl func() string) string {
 			break
 		}
 		txt := commentTexts[c.Intn(len(commentTexts), "ctext")]
-		// a short comment must not look like the start of a long one
-		if strings.HasPrefix(txt, "[[") || strings.HasPrefix(txt, "[=") {
+		// a short comment must not be the start of a long one ("--[[" or "--[=*["); "--[= x" and "--[ [" are short comments
+		if p.lay.HostileComments && c.Intn(4, "hostile") == 0 {
+			txt = []string{"[= x", "[ [", "[=", "[==  [ ]]", "[", "]]", "[=]"}[c.Intn(7, "hostilewhich")]
+		} else if strings.HasPrefix(txt, "[[") || strings.HasPrefix(txt, "[=") {
 			txt = " " + txt
 		}
 		s = " --" + txt + nl()
